@@ -56,6 +56,12 @@ func runNLRace(col *trace.Collector, seed int64, rounds int) (hooks []verifhook.
 		}
 		time.Sleep(time.Millisecond)
 	}
+	// both establishments must be complete (and their events recorded) before the rounds begin
+	for _, p := range ps {
+		if w := nlBarrier(col, vn, p, 20*time.Second); w != "" {
+			return nil, nil, "race node: barrier after the handshake: " + w, 0
+		}
+	}
 	const burst = 8
 	raceFrom = col.Len()
 	for r := 0; r < rounds; r++ {
